@@ -2,6 +2,9 @@ use crate::gen::Rng;
 use crate::runner::{Case, Outcome};
 
 pub mod c03;
+pub mod parse;
+pub mod lex;
+pub mod builtins;
 
 #[derive(Clone, Copy, PartialEq, Debug)]
 pub enum Tier {
@@ -29,6 +32,12 @@ pub trait Property {
 pub fn by_id(id: &str) -> Option<Box<dyn Property>> {
     match id {
         "C03" => Some(Box::new(c03::C03)),
+        "C02" => Some(Box::new(parse::C02)),
+        "C06" => Some(Box::new(lex::C06)),
+        "C07" => Some(Box::new(lex::C07)),
+        "C10" => Some(Box::new(builtins::C10)),
+        "C05" => Some(Box::new(parse::C05)),
+        "C13" => Some(Box::new(parse::C13)),
         _ => None,
     }
 }
